@@ -34,6 +34,11 @@ type c08Case struct {
 	StaleHalt bool        `json:"stale_halt"`
 	Script    []c08Script `json:"script"`
 	Arg       int         `json:"arg"` // IM2 vector
+	NilIO     bool        `json:"nil_io,omitempty"` // no I/O device: requests can still be raised by memory callbacks
+	// BPChange: before Run call i+1 (i >= 1) the breakpoint set is replaced (or, if InPlace, mutated in
+	// the same map) by BPSets[i-1]; same size as the old set in half of the cases
+	BPSets  [][]uint16 `json:"bp_sets,omitempty"`
+	InPlace bool       `json:"in_place,omitempty"`
 }
 
 const c08TwinCap = 30000
@@ -77,6 +82,9 @@ func (r *c08Rig) setup(c *c08Case) {
 		}
 		cpu.IM = c.IM
 		cpu.HALT = c.StaleHalt
+		if c.NilIO {
+			cpu.IO = nil
+		}
 		if !c.NilBP {
 			cpu.BreakPoints = map[uint16]struct{}{}
 			for _, b := range c.BPs {
@@ -128,6 +136,7 @@ type c08Outcome struct {
 	haltRets  int
 	intr      bool
 	steps     int
+	bpEdits   int
 }
 
 func (r *c08Rig) run(c *c08Case) c08Outcome {
@@ -140,6 +149,22 @@ func (r *c08Rig) run(c *c08Case) c08Outcome {
 		}
 	}
 	for call := 0; call < c.Runs; call++ {
+		if call >= 1 && call-1 < len(c.BPSets) && !c.NilBP {
+			// the host edits its breakpoints between calls
+			bps = map[uint16]bool{}
+			if c.InPlace {
+				for k := range r.ca.BreakPoints {
+					delete(r.ca.BreakPoints, k)
+				}
+			} else {
+				r.ca.BreakPoints = map[uint16]struct{}{}
+			}
+			for _, b := range c.BPSets[call-1] {
+				bps[b] = true
+				r.ca.BreakPoints[b] = struct{}{}
+			}
+			o.bpEdits++
+		}
 		werr, steps, ok := twinRun(&r.cb, bps)
 		if !ok {
 			o.discarded = true
@@ -299,6 +324,23 @@ func TestC08(t *testing.T) {
 				c.BPs = append(c.BPs, pcs[rapid.IntRange(0, len(pcs)-1).Draw(t, "bpIdx")])
 			}
 		}
+		if c.Prog != nil && rapid.IntRange(0, 3).Draw(t, "nilIO") == 0 {
+			c.NilIO = true
+		}
+		if !c.NilBP && c.Runs >= 2 && rapid.IntRange(0, 1).Draw(t, "editBPs") == 0 {
+			c.InPlace = rapid.Bool().Draw(t, "inPlace")
+			for i := 1; i < c.Runs; i++ {
+				n := len(c.BPs)
+				if rapid.Bool().Draw(t, "otherSize") {
+					n = rapid.IntRange(0, 4).Draw(t, "nbp2")
+				}
+				var set []uint16
+				for j := 0; j < n; j++ {
+					set = append(set, pcs[rapid.IntRange(0, len(pcs)-1).Draw(t, "bpIdx2")])
+				}
+				c.BPSets = append(c.BPSets, set)
+			}
+		}
 		var o c08Outcome
 		if pv := safely(func() { o = rig.run(&c) }); pv != nil {
 			// Step panics on this input (C12's business); Run == Step cannot be decided
@@ -324,6 +366,12 @@ func TestC08(t *testing.T) {
 		}
 		if o.intr {
 			col.Label("device-raised-interrupt")
+		}
+		if c.NilIO {
+			col.Label("no-io-device")
+		}
+		if o.bpEdits > 0 {
+			col.Label("breakpoints-edited-between-runs")
 		}
 		if (c.Runs >= 2 && o.bpHits > 0) || o.intr {
 			h := stats.Hash(uint64(c.Runs), uint64(len(c.BPs)), uint64(o.steps), uint64(len(pcs)), c.SoupSeed)
